@@ -61,11 +61,18 @@ class FakeDongle:
         self.world = world
         self.opened = True
 
+    dead = False      # a link that failed on a write or a read stays broken until it is re-opened
+
     def exchange(self, apdu, timeout=None):
         apdu = bytes(apdu)
         self.world.trace.append(("A", apdu))
+        if self.dead:
+            self.world.answers.append(("W",))
+            raise BaseException("Error while writing")
         item = self.world.next_item(apdu)
         k = item[0]
+        if k in ("W", "R"):
+            self.dead = True
         if k == "D":
             return bytearray(item[1])
         if k == "S":
